@@ -136,6 +136,7 @@ def gen_cases(family, tier):
             for mv in ("rust", "glam", "nalgebra"):
                 if not rts:
                     cf.append({"opt": {"bh": True, "bv": r.random() < 0.5, "mv": mv}})
+                    cf.append({"opt": {"mv": mv}, "plain": True})
                 cf.append({"opt": {"bh": False, "en": (not f64) or rts, "mv": mv,
                                    "se": r.random() < 0.3, "bv": r.random() < 0.5}})
             if i < nm:
@@ -820,7 +821,7 @@ def _build_campaign(family, tier, d):
             x["dir"] = os.path.join(cd, x["id"])
             j = {"id": "%s|%s" % (c.id, x["id"]), "source": c.wgsl, "opt": x["opt"],
                  "out": os.path.join(x["dir"], "m.rs"), "inv": True, "canon": True,
-                 "canon_nosrc": family == "const"}
+                 "canon_nosrc": family == "const", "proj": family == "struct"}
             if x.get("include_path"):
                 j["include_path"] = x["include_path"]
             jobs.append(j)
